@@ -427,6 +427,32 @@ class EngineTheory(Theory):
                     else:
                         outs.append((st2, SV('Int', '(nparams %s)' % f.e)))
                 return outs
+        # functools.reduce(lambda x, y: BODY, reversed(l), INIT) is the right fold of l (A-EXT-REDUCE: reduce applies the
+        # function left to right over the reversed list).  Against the recursive spec function F named by the contract
+        # (ghost fold_spec): base INIT = F(nil), step BODY[x := F(t), y := h] = F(cons h t); then the value is F(l).
+        if ast.unparse(e.func) == 'functools.reduce' and len(e.args) == 3 and isinstance(e.args[0], ast.Lambda) \
+                and len(e.args[0].args.args) == 2 and isinstance(e.args[1], ast.Call) and ast.unparse(e.args[1].func) == 'reversed' \
+                and len(e.args[1].args) == 1 and isinstance(e.args[1].args[0], ast.Name) and ex.c.ghost.get('fold_spec'):
+            spec = ex.c.ghost['fold_spec']
+            lv = st.env.get(e.args[1].args[0].id)
+            if lv is None or lv.sort != 'TList':
+                return None
+            inits = ex.eval(e.args[2], st)
+            if len(inits) != 1 or isinstance(inits[0][1], Exc) or inits[0][1].sort != 'Term':
+                return None
+            ex.oblige(st.fork().tag('fold.base'), 'fold.base', EQ(inits[0][1].e, '(%s nil)' % spec), 'post')
+            h, t = ex.fresh('Term', 'fold_h'), ex.fresh('TList', 'fold_t')
+            xn, yn = [a.arg for a in e.args[0].args.args]
+            stb = st.fork().tag('fold.step')
+            stb.env = dict(stb.env)
+            stb.env[xn] = SV('Term', '(%s %s)' % (spec, t))
+            stb.env[yn] = SV('Term', h)
+            for st3, v in ex.eval(e.args[0].body, stb):
+                if isinstance(v, Exc) or v.sort != 'Term':
+                    ex.oblige(st3, 'fold.step', 'false', 'post')
+                else:
+                    ex.oblige(st3, 'fold.step', EQ(v.e, '(%s (cons %s %s))' % (spec, h, t)), 'post')
+            return [(st, SV('Term', '(%s %s)' % (spec, lv.e)))]
         return None
 
     def ev_Dict(self, ex, e, st):
